@@ -16,9 +16,9 @@ import (
 type c06World struct {
 	Gen     *GenWorld `json:"gen,omitempty"` // generated VoD world instead of the bundled assets
 	VodRoot string    `json:"vodroot"`
-	Asset   string `json:"asset"`
-	MPD     string `json:"mpd"`
-	Cfg     URLCfg `json:"cfg"` // with Periods set; the twin is the same without periods/continuous
+	Asset   string    `json:"asset"`
+	MPD     string    `json:"mpd"`
+	Cfg     URLCfg    `json:"cfg"` // with Periods set; the twin is the same without periods/continuous
 }
 
 type c06Op struct {
@@ -39,12 +39,31 @@ func (C06) Gen(rng *core.Rng, tier string, idx int) *core.Scenario {
 	if rng.Chance(0.1) {
 		base = rng.Int63n(3_000_000_000_000)
 	}
+	if maxBase := int64(1<<31) * a.SegDurMS; base > maxBase { // segment numbers are 32-bit in mfhd and startNumber
+		base = rng.Int63n(maxBase)
+	}
 	cfg := URLCfg{MPDType: core.Pick(rng, []string{"number", "timeline", "timelinenr"})}
 	if rng.Chance(0.5) {
 		cfg.Tsbd = pint(core.Pick(rng, []int{0, 1, 5, 7, 10, 20, 30, 45, 90, 120, 300, 600}))
 	}
 	if rng.Chance(0.2) {
 		cfg.Ato = core.Pick(rng, []string{"0.5", "1", "1.5"})
+	}
+	if rng.Chance(0.12) { // an offset longer than a segment (and possibly than what is left of the period)
+		cfg.Ato = core.Pick(rng, []string{"3", "7", "10", "25"})
+	}
+	if rng.Chance(0.15) {
+		cfg.Snr = pint(core.Pick(rng, []int{1, 7, 100, 1000}))
+	}
+	if rng.Chance(0.15) { // availabilityStartTime that is not 1970: on / off a period boundary
+		st := base/1000 - int64(rng.Range(0, 7200))
+		if rng.Bool() {
+			st = st / 3600 * 3600
+		}
+		if st < 0 {
+			st = 0
+		}
+		cfg.StartS = p64(st)
 	}
 	// periods per hour: divisors and near-divisors of 3600, values whose period is / is not a multiple of the
 	// segment duration
@@ -91,6 +110,9 @@ func (C06) Gen(rng *core.Rng, tier string, idx int) *core.Scenario {
 		}
 		if t < 0 {
 			t = 0
+		}
+		if ast := cfg.AST() * 1000; t < ast { // before availabilityStartTime every request is answered 425 (C04)
+			t = ast + int64(rng.Range(0, 3))*pd + int64(rng.Range(0, 5000))
 		}
 		sc.AddOp(c06Op{T: t})
 	}
@@ -210,7 +232,9 @@ func (C06) Run(t *testing.T, sc *core.Scenario, res *core.Result) {
 			idStart[p.ID] = st
 		}
 		last := cm.Periods[len(cm.Periods)-1]
-		nowS := float64(now) / 1000
+		// Period@start counts from availabilityStartTime; with an availabilityTimeOffset the newest segments start up to
+		// ato after now, so the newest Period is the one that contains now+ato
+		nowS := float64(now-cm.ASTms)/1000 + cfg.AtoS()
 		if !(last.StartS <= nowS+1e-9 && nowS < last.StartS+float64(pdS)+1e-9) {
 			res.Violate("C06.periods-tile", merge(feat, core.Sig("kind", "last-period-not-current")), "last Period starts %.3f, now %.3f, period %d s", last.StartS, nowS, pdS)
 		}
